@@ -126,6 +126,30 @@ func c14World(rc *kernel.RunCtx) {
 		// that cache fills and lookups overlap between tasks
 		templruntime.ResetWatchCache()
 	}
+	// one CSS middleware per spec, shared by all tasks, with a registered subset
+	var regs []templ.CSSClass
+	for _, c := range defaultC12.Css {
+		if t.Bool("register") {
+			regs = append(regs, c)
+		}
+	}
+	var mws []templ.CSSMiddleware
+	var mwDocs [][]byte
+	for i := range specs {
+		mw := templ.NewCSSMiddleware(templ.Handler(shared[i]), regs...)
+		rec := newRecorder()
+		mw.ServeHTTP(rec, httptest.NewRequest(http.MethodGet, "/page", nil))
+		if rec.status != http.StatusOK {
+			rc.Fail("C14/clean-render-error", "solo request through the CSS middleware for %s: status %d", specs[i], rec.status)
+			rc.Finish(k)
+			return
+		}
+		mws = append(mws, mw)
+		mwDocs = append(mwDocs, append([]byte(nil), rec.body.Bytes()...))
+	}
+	if dev {
+		templruntime.ResetWatchCache()
+	}
 	ntasks := t.Range(2, rc.Param("max_tasks", 6), "ntasks")
 	faultsLeft := t.Choose(3, "nfaults")
 	plan := make([][]*c14render, ntasks)
@@ -133,7 +157,7 @@ func c14World(rc *kernel.RunCtx) {
 		m := t.Range(1, rc.Param("max_renders", 4), "nrenders")
 		for j := 0; j < m; j++ {
 			r := &c14render{Spec: t.Choose(nspec, "spec"), FailAt: -1}
-			r.Kind = []string{"render", "render", "shared", "http"}[t.Choose(4, "kind")]
+			r.Kind = []string{"render", "render", "shared", "http", "mw"}[t.Choose(5, "kind")]
 			if faultsLeft > 0 && r.Kind == "render" && t.Chance(1, 3, "faulty") {
 				faultsLeft--
 				if t.Bool("fault-writer") && len(docs[r.Spec]) > 0 {
@@ -165,6 +189,10 @@ func c14World(rc *kernel.RunCtx) {
 				case "http":
 					rec := newRecorder()
 					templ.Handler(shared[r.Spec]).ServeHTTP(parkRecorder{rec, park}, httptest.NewRequest(http.MethodGet, "/", nil))
+					r.got, r.status = rec.body.Bytes(), rec.status
+				case "mw":
+					rec := newRecorder()
+					mws[r.Spec].ServeHTTP(parkRecorder{rec, park}, httptest.NewRequest(http.MethodGet, "/page", nil))
 					r.got, r.status = rec.body.Bytes(), rec.status
 				}
 			}
@@ -204,6 +232,9 @@ func c14World(rc *kernel.RunCtx) {
 	for i, rs := range plan {
 		for j, r := range rs {
 			D := docs[r.Spec]
+			if r.Kind == "mw" {
+				D = mwDocs[r.Spec]
+			}
 			what := fmt.Sprintf("task %d render %d (%s of %s, dev=%v, knobs %+v, %d tasks)", i, j, r.Kind, specs[r.Spec], dev, kn, ntasks)
 			if r.fired {
 				nfired++
@@ -215,7 +246,7 @@ func c14World(rc *kernel.RunCtx) {
 				}
 				continue
 			}
-			if r.Kind == "http" && r.status != http.StatusOK {
+			if (r.Kind == "http" || r.Kind == "mw") && r.status != http.StatusOK {
 				rc.Fail("C14/concurrent-handler-failed", "%s: status %d body %q", what, r.status, kernel.Short(string(r.got), 200))
 				continue
 			}
